@@ -27,7 +27,7 @@ KEYWORDS = ('all and as assign at begin break breakpoint column cycle default de
 REGISTERS = 'hue saturation brightness kelvin red green blue duration'.split()
 MARKS = ['{', '}', '[', ']', '(', ')', '+', '-', '*', '/', '%', '^', ':', '#']
 COMPARES = ['<', '<=', '>', '>=', '==', '!=']
-VALUES = ['0', '5', '2.5', '.5', '"a"', '""', '"{}"', '"{} {x}"', 'x', 'f', 'm', 'zz', '8:00', '*:15', '24:00', '1:5']
+VALUES = ['0', '5', '2.5', '.5', '"a"', '""', '"{}"', '"{} {x}"', '"{"', '"}{"', '"{0"', '"{:"', '"{!}"', 'x', 'f', 'm', 'zz', '8:00', '*:15', '24:00', '1:5']
 INTERNAL = ('number eof error mark name null unknown compare register literal_string syntax_error '
             'time_pattern').split()
 ODD = ['"abc', '@', '$', '\\', 'é', '12abc', '1.2.3', 'H', 'S', 'B', 'K', 'IF', 'Define', '_', '\t']
@@ -245,6 +245,10 @@ def rule_breakers():
             add(tag, 'time at %s on all' % pat)
         add('minus-before-pattern-assign', 'assign t -8:00')
         add('minus-before-string', 'assign t -"a"')
+    # a break that is not inside a loop *of its own routine*
+    out.append(('break-outside-loop/routine-defined-in-loop', 'repeat 2 begin define f begin break end f end'))
+    out.append(('break-outside-loop/routine-defined-in-loop', 'repeat 2 begin define f break f end'))
+    out.append(('break-outside-loop/routine-defined-in-loop', 'repeat all as l begin define f with x begin if x break end f 1 end'))
     # missing end at end of input
     out.append(('missing-end/eof', 'define r begin on all'))
     out.append(('missing-end/eof', 'if 1 begin on all'))
